@@ -21,14 +21,17 @@ from . import c07 as C07
 from . import c18 as C18
 
 PROP = "C08"
-RULE = ("(12%: structured 'bichain' inputs -- 3-4 nodes on a chain of bidirected edges, one outcome, two conditions) random ADMGs with 2-5 nodes x pairs (outcome conjunction, non-empty condition conjunction) with disjoint keys drawn "
+RULE = ("(7%: structured 'observational' inputs -- P(y | x) over factual variables, the static part of the proved fragment; 8%: structured 'bichain' inputs -- 3-4 nodes on a chain of bidirected edges, one outcome, two conditions) random ADMGs with 2-5 nodes x pairs (outcome conjunction, non-empty condition conjunction) with disjoint keys drawn "
         "from <=2 counterfactual worlds plus the factual world (shared/distinct subscripts, x / x' values, "
         "self-interventions); the examples of test_idc_star / Shpitser-Pearl / Tikka and all past witnesses first; a "
         "stream of impossible conditions (violating effectiveness). Every case is run under every order of the worlds and "
         "both orders of the other set-valued iterations. A case is non-trivial when the graph has an edge, some variable "
         "is counterfactual and IDC* got past line 1 (answered, returned Zero, or refused as unidentifiable).")
 ASSUMPTIONS = [
-    "soundness (value = P(outcomes, conditions) / P(conditions)) and zero-soundness have NO theorem; IDC* inherits the wrong "
+    "soundness (value = P(outcomes, conditions) / P(conditions)) is PROVED on the fragment InFragmentC (idcstar_sound_fragment: "
+    "factual unstarred outcomes and conditions without a common name, rule 2 applies to no condition, the joint ID* estimand "
+    "marginalises nothing; decided on the real run, tag in_fragment_c; a failure inside it is a VIOLATION keyed "
+    "[IN-FRAGMENT, kind]); outside the fragment soundness and zero-soundness have NO theorem; IDC* inherits the wrong "
     "answers of ID* (F10) and adds its own (the line-4 exchange ignores the remaining conditions; what remains of F11: "
     "Expression.conditional also normalises over the variables bound by inner sums of the ID* estimand -- the subscript part of "
     "F11 is repaired by `fix:` f502ca2): decided by correspondence + exact "
@@ -113,15 +116,32 @@ def _gen_bichain(rng: random.Random):
     return g, outs, conds
 
 
+def _gen_observational(rng: random.Random):
+    """structured: an observational conditional query P(y | x) -- factual variables, unstarred values, disjoint names: the
+    static part of the fragment of idcstar_sound_fragment (whether rule 2 applies / something is marginalised varies)"""
+    g = K.rand_admg(rng, 2, 4)
+    nodes = G.all_nodes(g)
+    k = rng.randint(2, min(len(nodes), 4))
+    pick = rng.sample(nodes, k)
+    cut = rng.randint(1, k - 1)
+    outs = [[K.mkvar(v_), "m"] for v_ in pick[:cut]]
+    conds = [[K.mkvar(v_), "m"] for v_ in pick[cut:]]
+    return g, outs, conds
+
+
 def cases(rng: random.Random, tier: str):
     out = [dict(c, seed=3000 + i) for i, c in enumerate(CORPUS)]
     out += K.load_corpus("C08")
     n = 1200 if tier == "quick" else 8000
     while len(out) < n + len(CORPUS):
         big = rng.random() < (0.12 if tier == "quick" else 0.3)
-        if rng.random() < 0.12:
+        if rng.random() < 0.08:
             g, outs, conds = _gen_bichain(rng)
             out.append({"g": g, "outcomes": outs, "conditions": conds, "seed": rng.randrange(1 << 30), "gen": "bichain"})
+            continue
+        if rng.random() < 0.07:
+            g, outs, conds = _gen_observational(rng)
+            out.append({"g": g, "outcomes": outs, "conditions": conds, "seed": rng.randrange(1 << 30), "gen": "observational"})
             continue
         g = K.rand_admg(rng, 2, 5 if big else 4)
         pr = K.rand_event_pair(rng, g, max_worlds=2)
@@ -531,6 +551,55 @@ def _evaluate(case, n_models=8, with_unpatched=True, all_verdicts=False):
             "verdicts": [[json.dumps(a)[:160], list(s_) if s_ is not None else None, k_] for a, s_, k_ in verdicts]}
 
 
+def _est_names(e):
+    """base names of the non-Intervention variables of an encoded estimand: event variables of every leaf + Sum ranges"""
+    out = set()
+    if isinstance(e, str):
+        return out
+    t = e[0]
+    if t in ("P", "PP"):
+        ch, pa = (e[1], e[2]) if t == "P" else (e[2], e[3])
+        out |= {int(v_[1]) for v_ in ch + pa if str(v_[3]) != "1"}
+    elif t == "prod":
+        for y in e[1:]:
+            out |= _est_names(y)
+    elif t in ("sum", "osum"):
+        out |= {int(v_[1]) for v_ in e[1] if str(v_[3]) != "1"} | _est_names(e[2])
+    elif t == "frac":
+        out |= _est_names(e[1]) | _est_names(e[2])
+    return out
+
+
+def in_fragment_c(case):
+    """The fragment of Props/C08.lean `InFragmentC` (theorem idcstar_sound_fragment), decided on the REAL run:
+    static  -- outcomes / conditions are dicts of factual variables of the graph, unstarred values, no name on both sides,
+               at least one condition (and the graph is acyclic);
+    dynamic -- line 4 did not recurse (rule 2 applied to no condition) and the estimand ID* returned for the joint event
+               mentions exactly the event's variables (nothing was marginalised).
+    Inside it IDC* is PROVED to return P(outcomes, conditions) / P(conditions): a failure there is a VIOLATION."""
+    from y0.dsl import Expression
+
+    outs, conds = case["outcomes"], case["conditions"]
+    if not outs or not conds or case.get("malformed"):
+        return False
+    nodes = set(G.all_nodes(case["g"]))
+    for var, val in outs + conds:
+        if var[4] or str(var[2]) != "n" or str(var[3]) != "0" or val != "m" or int(var[1]) not in nodes:
+            return False
+    on, cn = [int(v_[1]) for v_, _ in outs], [int(v_[1]) for v_, _ in conds]
+    if len(set(on)) != len(on) or len(set(cn)) != len(cn) or set(on) & set(cn):
+        return False
+    rec = {}
+    res, _ = _run_real(case, K.id_strategies(joint(case))[0], record=rec)
+    if len(rec.get("levels", [])) != 1 or res[0] == "err":
+        return False
+    calls = [c for c in rec.get("id_star", []) if "_number_recursions" in c[1]]
+    if not calls or not isinstance(calls[-1][2], Expression):
+        return False       # ID* refused or failed on the joint event: IDC* returns no expression
+    est = K.canon_expr(E.to_str_tree(E.enc_expr(calls[-1][2])))
+    return _est_names(est) == set(on) | set(cn)
+
+
 COARSE = ("F11", "normalisation:subscript", "inherited", "reassociation", "exchange:polarity", "exchange:conditions", "exchange:separation",
           "conditional:shared-base")
 
@@ -552,11 +621,24 @@ def _coarse_key(case, r):
 
 
 SHRINK = K.Shrinker(PROP, ("outcomes", "conditions"), _evaluate, ("g", "outcomes", "conditions", "seed"))
+# every C08 finding listed in known_findings.jsonl has a coarse (mechanism) key, none the key of a shrunk input: trying other
+# shrink orders "to reach a listed key" (Shrinker.shrink_to_key) cannot succeed and costs 6 more full shrinks per failure
+SHRINK.greedy_only = True
+_SHRUNK = [0]
+
+
+def _shrink_budget(per_process=5):
+    """shrinking is expensive (hundreds of real runs); under a massive breakage only the first few failures of each worker
+    process are shrunk, the others keep the key of the unshrunk input -- every C08 finding listed in known_findings.jsonl has
+    a coarse (mechanism) key, so an unshrunk key is never excused: this only bounds the time, not the verdict"""
+    _SHRUNK[0] += 1
+    return _SHRUNK[0] <= per_process
 
 
 def run_python(case):
     r = _evaluate(case, all_verdicts=True)
     by_order = r["by_order"]
+    frag = bool(r["in_domain"]) and in_fragment_c(case)
     distinct = []
     for x in by_order:
         if x not in distinct:
@@ -575,20 +657,26 @@ def run_python(case):
             "single_world_leaves": all(C07.single_world(x[1]) for x in by_order if x[0] == "ok"),
             "condition_certainly_impossible": certainly_impossible(case["conditions"]),
             # task "hash seed": when the answer depends on the iteration order of a Python set, are all answers right?
-            "order_dependent_verdict": r["order_verdict"], "gen": case.get("gen", "random")}
+            "order_dependent_verdict": r["order_verdict"], "gen": case.get("gen", "random"),
+            # Props/C08.lean idcstar_sound_fragment: inside the fragment the answer is proved right
+            "in_fragment_c": frag, "in_fragment_c_answered": bool(frag and shape in ("P", "sum", "prod", "frac"))}
     nontrivial = r["in_domain"] and K.n_worlds(jt) >= 1 and bool(case["g"]["di"] or case["g"]["bi"]) and \
         shape in ("P", "sum", "prod", "frac", "unidentifiable", "zero")
     out = {"out": ["orders", by_order], "fail": r["fail"], "nontrivial": bool(nontrivial), "tags": tags}
     if r["fail"] and r["order_verdict"] == "mixed":
         out["fail"] += (" [the answer depends on the iteration order of a Python set (PYTHONHASHSEED): under another order "
                         "idc_star returns a CORRECT answer; verdict per distinct answer: %s]" % r["verdicts"])
-    if r["fail"] and r["kind"] in COARSE:
+    if r["fail"] and frag:
+        # a theorem says this cannot happen: never a known finding
+        out["fail"] += " [INSIDE the fragment of idcstar_sound_fragment (Props/C08.lean): the answer is proved correct there]"
+        out["finding_key"] = json.dumps(["IN-FRAGMENT", r["kind"]])
+    elif r["fail"] and r["kind"] in COARSE:
         ck = _coarse_key(case, r)
         if r["order_verdict"] == "mixed":
             # the same input is answered correctly under one iteration order and wrongly under another
             ck = json.dumps(["order-dependent-verdict", json.loads(ck)])
         out["finding_key"] = ck
-    elif r["fail"] and not case.get("_noshrink"):
+    elif r["fail"] and not case.get("_noshrink") and _shrink_budget():
         small, key = SHRINK.shrink_to_key(case, r["kind"])
         out["shrunk"] = small
         out["finding_key"] = key
@@ -635,6 +723,8 @@ def finding_key(case, res):
     if res.get("finding_key"):
         return res["finding_key"]
     r = _evaluate(case)
+    if r["fail"] and r["in_domain"] and in_fragment_c(case):
+        return json.dumps(["IN-FRAGMENT", r["kind"]])
     return _coarse_key(case, r) or SHRINK.key_of(case, r["kind"])
 
 
@@ -643,7 +733,7 @@ MANIFEST = {
              "(ValueError) every condition for which ID* answers Zero, in particular every condition that violates "
              "effectiveness, before doing anything else; the model is defined for every fuel, an answer reached with some fuel "
              "is not changed by more fuel; every leaf of a returned estimand is a single-world interventional term (C06 part); "
-             "Zero from line 3 (inconsistent joint event) is sound in every compatible functional SCM (by C18's cg_prob); the final division is fully modelled. Soundness of the returned value and of Zero from inside ID* has NO theorem (it inherits F10 from "
+             "Zero from line 3 (inconsistent joint event) is sound in every compatible functional SCM (by C18's cg_prob); the final division is fully modelled; the line-4 recursion terminates within |conditions| + 1 levels when no name is both an outcome and a condition (idcstar_own_recursion_terminates); the returned value EQUALS P(outcomes, conditions)/P(conditions) in every compatible functional SCM on the observational no-exchange fragment (idcstar_sound_fragment, via idstar_sound_fragment, the repaired conditional and marginalisation). Outside that fragment soundness of the returned value and of Zero from inside ID* has NO theorem (it inherits F10 from "
              "ID* and adds the bound-range part of F11 and an exchange step that ignores the other conditions); the check decides it by correspondence with the real "
              "code plus exact evaluation of P(outcomes, conditions)/P(conditions) on sampled functional SCMs; every wrong answer is "
              "attributed to the first step of IDC*'s chain of claims that exact evaluation shows to be broken (reassociation, "
